@@ -259,7 +259,7 @@ func (s *c19State) roundTrip(h *c19Handle) {
 	kvs := h.kvs()
 	if h.ver {
 		spec := uni.Spec{Sys: resolve.NPM, Pkgs: []uni.Pkg{{Name: "pkg", Vers: []uni.Ver{{V: "1.0.0", Attrs: kvs}}}}}
-		text := spec.SchemaText()
+		text := spec.SchemaTextStyle(s.step % 3)
 		sc, err := schema.New(text, resolve.NPM)
 		if err != nil || len(sc.Packages) != 1 || len(sc.Packages[0].Versions) != 1 {
 			s.bad("AttrSet:text-parse", "schema.New failed on %q: %v", text, err)
